@@ -390,7 +390,7 @@ def find_fn(src, impl_re, fn_name):
             depth -= src[j] == '}'
             j += 1
         body = src[m.end():j - 1]
-        f = re.search(r'\bfn\s+%s\s*\(' % re.escape(fn_name), body)
+        f = re.search(r'\bfn\s+%s\s*(?:<[^>(]*>)?\s*\(' % re.escape(fn_name), body)
         if not f:
             continue
         k = body.index('{', f.end())
@@ -1264,6 +1264,112 @@ class SarkSym(Sym):
         raise Untranslatable('result of type %s' % t)
 
 
+class LoopSym:
+    """the body of the double-and-add loop of `Element::scalar_mul_both` (src/min_curve/element.rs): statements over two
+    element-valued accumulators, the current limb and the bit index.  Values are Lean expressions of type `Ext`, `Nat`
+    (u64: `>> i` = `/ 2 ^ i`, `& 1` = `% 2`) or `Bool`; `+` on elements is the translated addition (`addG`), `.double()`
+    the translated doubling (`dblG`), `Self::conditional_select(&a, &b, Choice::from(f))` is `if f == 1 then b else a`
+    (subtle's contract; the component-wise select of `Fq` is the subject of C10)."""
+
+    def ev(self, e, env):
+        k = e[0]
+        if k == 'num':
+            return (str(e[1]), 'u64')
+        if k == 'path':
+            if e[1] in env:
+                return env[e[1]]
+            raise Untranslatable('name %s in the ladder body' % e[1])
+        if k == 'un':
+            a, t = self.ev(e[2], env)
+            if e[1] in ('&', '*'):
+                return (a, t)
+            if e[1] == '!' and t == 'bool':
+                return ('(!%s)' % a, 'bool')
+            raise Untranslatable('unary %s' % e[1])
+        if k == 'bin':
+            op = e[1]
+            (a, ta), (b, tb) = self.ev(e[2], env), self.ev(e[3], env)
+            if ta == tb == 'u64':
+                if op == '>>':
+                    return ('(%s / 2 ^ %s)' % (a, b), 'u64')
+                if op == '&' and b == '1':
+                    return ('(%s %% 2)' % a, 'u64')
+                if op in ('==', '!='):
+                    return ('(%s %s %s)' % (a, op, b), 'bool')
+            if ta == tb == 'ext' and op == '+':
+                return ('(addG %s %s)' % (a, b), 'ext')
+            if ta == tb == 'bool' and op in ('&&', '||', '=='):
+                return ('(%s %s %s)' % (a, op, b), 'bool')
+            raise Untranslatable('binary %s on %s, %s in the ladder body' % (op, ta, tb))
+        if k == 'method':
+            a, t = self.ev(e[1], env)
+            if t == 'ext' and e[2] == 'double' and not e[3]:
+                return ('(dblG %s)' % a, 'ext')
+            if e[2] in ('clone',) and not e[3]:
+                return (a, t)
+            raise Untranslatable('method .%s in the ladder body' % e[2])
+        if k == 'call' and e[1][0] == 'path':
+            f = e[1][1]
+            av = [self.ev(x, env) for x in e[2]]
+            if f in ('Self::conditional_select', 'Element::conditional_select') and [t for _, t in av] == ['ext', 'ext', 'choice']:
+                return ('(if %s == 1 then %s else %s)' % (av[2][0], av[1][0], av[0][0]), 'ext')
+            if f == 'Choice::from' and [t for _, t in av] == ['u64']:
+                return (av[0][0], 'choice')
+            raise Untranslatable('call of %s in the ladder body' % f)
+        raise Untranslatable('expression %s in the ladder body' % k)
+
+    def exec(self, stmts, env):
+        env = dict(env)
+        for s in stmts:
+            k = s[0]
+            if k == 'macro':
+                continue
+            if k == 'let' and s[1][0] == 'pname' and s[2] is not None:
+                env[s[1][1]] = self.ev(s[2], env)
+            elif k == 'assign':
+                _, name, op, e = s
+                if name not in env:
+                    raise Untranslatable('assignment to %s' % name)
+                if op:
+                    e = ('bin', op, ('path', name), e)
+                env[name] = self.ev(e, env)
+            elif k == 'expr' and s[1][0] == 'ifexpr' or k == 'if':
+                c, th, el = (s[1][1], s[1][2], s[1][3]) if k == 'expr' else (s[1], s[2], s[3] or [])
+                cv, ct = self.ev(c, env)
+                if ct != 'bool':
+                    raise Untranslatable('condition of type %s' % ct)
+                e1, e2 = self.exec(th, env), self.exec(el, env)
+                for name in env:
+                    if e1.get(name) != e2.get(name):
+                        (v1, t1), (v2, t2) = e1[name], e2[name]
+                        if t1 != t2:
+                            raise Untranslatable('branches disagree on the type of %s' % name)
+                        env[name] = ('(if %s then %s else %s)' % (cv, v1, v2), t1)
+            else:
+                raise Untranslatable('statement %s in the ladder body' % k)
+        return env
+
+
+def translate_ladder(repo, cfg, index):
+    src = open(os.path.join(repo, cfg['file'])).read()
+    text, l0, l1 = find_fn(src, cfg['impl'], cfg['fn'])
+    info = dict(file=cfg['file'], fn=cfg['fn'], lines=[l0, l1], sha256=hashlib.sha256(text.encode()).hexdigest())
+    m = re.fullmatch(r'\{\s*let\s+mut\s+(\w+)\s*=\s*Self::IDENTITY\s*;\s*let\s+mut\s+(\w+)\s*=\s*self\s*;\s*'
+                     r'for\s+(\w+)\s+in\s+(\w+)\s*\{\s*for\s+(\w+)\s+in\s+0\s*\.\.\s*64\s*(\{.*\})\s*\}\s*(\w+)\s*\}',
+                     re.sub(r'//[^\n]*', '', text), re.S)
+    if not m:
+        raise Untranslatable('not the shape `acc = IDENTITY; ins = self; for limb in limbs { for i in 0..64 { … } } acc`')
+    acc, ins, limb, limbs, i, body, result = m.groups()
+    sig = re.search(r'fn\s+%s\s*<\s*const\s+(\w+)\s*:\s*bool\s*>\s*\(\s*self\s*,\s*(\w+)\s*:' % cfg['fn'], src)
+    if not sig or sig.group(2) != limbs or result != acc:
+        raise Untranslatable('signature / result of the ladder')
+    stmts = Parser(tokenize(body)).block()
+    env = {acc: ('acc', 'ext'), ins: ('ins', 'ext'), limb: ('limb', 'u64'), i: ('i', 'u64'), sig.group(1): ('CT', 'bool')}
+    out = LoopSym().exec(stmts, env)
+    step = '  (%s, %s)' % (out[acc][0], out[ins][0])
+    return step, info
+
+
 # ---------------------------------------------------------------------------------------------- targets
 
 EXT1 = (('X', 'Y', 'Z', 'T'), 'ext')
@@ -1317,6 +1423,13 @@ TARGETS = [
          params='(num den : Nat)', env={'num': ('num', 'fq'), 'den': ('den', 'fq')}, new_order=None, fallback='sqrtRatioArk num den', lean_ret='Option (Bool × Nat)'),
     dict(name='min_sqrt_ratio_zeta', file='src/min_curve/invsqrt.rs', impl=r'impl\s+Fq\s*\{', fn='non_arkworks_sqrt_ratio_zeta', sark=True, mode='option', ret='tuple',
          params='(num den : Nat)', env={'num': ('num', 'fq'), 'den': ('den', 'fq')}, new_order=None, fallback='sqrtRatioMin num den', lean_ret='Option (Bool × Nat)'),
+    dict(name='min_scalar_mul_step', file='src/min_curve/element.rs', impl=r'impl\s+Element\s*\{', fn='scalar_mul_both', ladder=True,
+         params='(CT : Bool) (limb i : Nat) (acc ins : Ext)', lean_ret='Ext × Ext', mode='pure', ret='ext', env={}, new_order='xyzt',
+         fallback='(if (limb / 2 ^ i) % 2 == 1 then Ext.addMin acc ins else acc, Ext.doubleMin ins)'),
+    dict(name='min_scalar_mul_vartime', file='src/min_curve/element.rs', impl=r'impl\s+Element\s*\{', fn='scalar_mul_vartime', ladder_wrapper=True,
+         params='(p : Ext) (limbs : List Nat)', lean_ret='Ext', mode='pure', ret='ext', env={}, new_order='xyzt', fallback='min_scalar_mul_both false p limbs'),
+    dict(name='min_scalar_mul', file='src/min_curve/element.rs', impl=r'impl\s+Element\s*\{', fn='scalar_mul', ladder_wrapper=True,
+         params='(p : Ext) (limbs : List Nat)', lean_ret='Ext', mode='pure', ret='ext', env={}, new_order='xyzt', fallback='min_scalar_mul_both true p limbs'),
     dict(name='r1cs_compress', file='src/ark_curve/r1cs/inner.rs', impl=r'impl\s+ElementVar\s*\{', fn='compress_to_field', gadget=True, mode='pure', ret='fq',
          params='(x y : Nat) (h : R1cs.Hint)', env={'self': (('x', 'y'), 'pair')}, new_order=None, fallback='R1cs.compress x y h', lean_ret='Bool × Nat'),
     dict(name='r1cs_decompress', file='src/ark_curve/r1cs/inner.rs', impl=r'impl\s+ElementVar\s*\{', fn='decompress_from_field', gadget=True, mode='pure', ret='pair',
@@ -1401,12 +1514,25 @@ def main():
     parts = ['/- GENERATED by translator/extract_formulas.py from the Rust sources of the repository; do not edit. -/',
              'import Decaf.Model.R1cs', '', 'namespace Gen.Formulas', 'open Model', '',
              '/-- an integer / big-integer constant of the sources as a natural number -/',
-             'def litNat : Lit → Nat', '  | .nat n => n', '  | .dec n => n', '  | _ => 0', '']
+             'def litNat : Lit → Nat', '  | .nat n => n', '  | .dec n => n', '  | _ => 0', '',
+             '/-- an `Element` constant of the minimal backend (struct literal x, y, z, t) -/',
+             'def extLit : Lit → Ext', '  | .struct [x, y, z, t] => ⟨fqLit x, fqLit y, fqLit z, fqLit t⟩', '  | _ => ⟨0, 0, 0, 0⟩', '']
     report = {}
     for cfg in TARGETS:
         info = dict(file=cfg['file'], fn=cfg['fn'])
         try:
-            body, info = translate(repo, cfg, index)
+            if cfg.get('ladder'):
+                body, info = translate_ladder(repo, cfg, index)
+            elif cfg.get('ladder_wrapper'):
+                src = open(os.path.join(repo, cfg['file'])).read()
+                text, l0, l1 = find_fn(src, cfg['impl'], cfg['fn'])
+                mm = re.fullmatch(r'\{\s*Self::scalar_mul_both::<\s*(true|false)\s*>\(\s*self\s*,\s*le_bits\s*\)\s*\}', re.sub(r'//[^\n]*', '', text), re.S)
+                if not mm:
+                    raise Untranslatable('not a call of scalar_mul_both::<…>(self, le_bits)')
+                body = '  min_scalar_mul_both %s p limbs' % mm.group(1)
+                info = dict(file=cfg['file'], fn=cfg['fn'], lines=[l0, l1], sha256=hashlib.sha256(text.encode()).hexdigest())
+            else:
+                body, info = translate(repo, cfg, index)
             info['status'] = 'translated'
         except (Untranslatable, IndexError, ValueError, OSError) as ex:
             body = '  ' + cfg['fallback']
@@ -1420,6 +1546,17 @@ def main():
             doc += ' — UNTRANSLATED (%s): falls back to the hand model' % info['reason'].replace('-/', '- /')
         parts.append('/-- %s -/' % doc)
         parts.append('def %s %s : %s :=\n%s\n' % (cfg['name'], cfg['params'], cfg['lean_ret'], body))
+        if cfg.get('ladder'):
+            pass
+        if cfg['name'] == 'min_neg':
+            parts.append('/-- the translated addition / doubling of the minimal backend on `Ext` values -/')
+            parts.append('def addG (a b : Ext) : Ext := min_add a.X a.Y a.Z a.T b.X b.Y b.Z b.T')
+            parts.append('def dblG (a : Ext) : Ext := min_double a.X a.Y a.Z a.T\n')
+        if cfg.get('ladder'):
+            parts.append('/-- the loop skeleton of `scalar_mul_both`: `for limb in le_bits { for i in 0..64 { step } }` from (IDENTITY, self), result `acc` -/')
+            parts.append('def min_scalar_mul_both (CT : Bool) (p : Ext) (limbs : List Nat) : Ext :=\n'
+                         '  (limbs.foldl (fun st limb => (List.range 64).foldl (fun st i => min_scalar_mul_step CT limb i st.1 st.2) st)\n'
+                         '    (extLit Gen.min_curve_element.Element.IDENTITY, p)).1\n')
     parts.append('end Gen.Formulas')
     text = '\n'.join(parts) + '\n'
     old = open(out).read() if os.path.exists(out) else None
